@@ -19,7 +19,7 @@ RULE = (
 )
 ASSUMPTIONS = [
     "in-flight and ready are the scheduler's knowledge: dispatched minus observed-done, dependencies observed done",
-    "nodes downstream of deactivated nodes make a wait unjudged (counted in class histogram), programs are flag-free here",
+    "a quarter of the programs have activation flags; a wait is left unjudged (counted) only when a node downstream of a deactivated node is sequential (it could be the best candidate)",
 ]
 BUDGET = {"quick": {"shards": 4, "seconds": 40}, "thorough": {"shards": 16, "seconds": 420}}
 
@@ -36,7 +36,7 @@ def run_case(case: Dict[str, Any]) -> CaseResult:
 
 def strategy(tier: str) -> Any:
     return sc.sched_case(tier=tier, modes=("ctl", "ctl", "ctl-ex"), min_sites=3, max_sites=9, wide=True,
-                         seq_rate=0.12, prio=(-2, 4), pure_kind_rate=0.5, max_mc=4)
+                         seq_rate=0.12, prio=(-2, 4), pure_kind_rate=0.5, max_mc=4, flag_rate=0.35)
 
 
 def run_shard(H: Harness) -> None:
